@@ -369,6 +369,27 @@ func cmpOp(op Op, a, b *Term) *Term {
 			return Bool(sx <= sy)
 		}
 	}
+	if a.W > 64 && isConstAny(a) && isConstAny(b) {
+		// wide constants (concrete replay of big-integer code)
+		x, y := constBig(a), constBig(b)
+		if op == OpSlt || op == OpSle {
+			half := new(big.Int).Lsh(big.NewInt(1), uint(a.W-1))
+			full := new(big.Int).Lsh(big.NewInt(1), uint(a.W))
+			if x.Cmp(half) >= 0 {
+				x = new(big.Int).Sub(x, full)
+			}
+			if y.Cmp(half) >= 0 {
+				y = new(big.Int).Sub(y, full)
+			}
+		}
+		c := x.Cmp(y)
+		switch op {
+		case OpUlt, OpSlt:
+			return Bool(c < 0)
+		default:
+			return Bool(c <= 0)
+		}
+	}
 	if sameTerm(a, b) {
 		return Bool(op == OpUle || op == OpSle)
 	}
@@ -417,6 +438,29 @@ func BinBV(op Op, a, b *Term) *Term {
 		panic(fmt.Sprintf("BinBV %v: width mismatch %d vs %d", opNames[op], a.W, b.W))
 	}
 	w := a.W
+	if w > 64 && isConstAny(a) && isConstAny(b) {
+		x, y := constBig(a), constBig(b)
+		mod := new(big.Int).Lsh(big.NewInt(1), uint(w))
+		var r *big.Int
+		switch op {
+		case OpAdd:
+			r = new(big.Int).Add(x, y)
+		case OpSub:
+			r = new(big.Int).Sub(x, y)
+		case OpMul:
+			r = new(big.Int).Mul(x, y)
+		case OpBAnd:
+			r = new(big.Int).And(x, y)
+		case OpBOr:
+			r = new(big.Int).Or(x, y)
+		case OpBXor:
+			r = new(big.Int).Xor(x, y)
+		}
+		if r != nil {
+			r.Mod(r, mod)
+			return WideConst(w, r)
+		}
+	}
 	if a.IsConst() && b.IsConst() {
 		x, y := a.Val, b.Val
 		var r uint64
